@@ -39,6 +39,7 @@ type Contract struct {
 	Modifies []ModTarget
 	GhostSets []GhostSet
 	NoMerge   bool
+	Stable    []ModTarget // functype: when the value is invoked, the heap differs from the enclosing function's entry only here
 	ModAny   bool // "modifies *": callers havoc everything (only for externs that run user code)
 	MayPanic bool // `panics *`: may panic under any circumstances
 	Pure     bool
@@ -135,7 +136,7 @@ var (
 )
 
 var blockKeywords = map[string]bool{"func": true, "extern": true, "functype": true, "trusted": true, "loop": true, "ghost": true, "spec": true, "opaque": true, "impl": true, "guarded": true, "lemma": true}
-var clauseKeywords = map[string]bool{"requires": true, "ensures": true, "xensures": true, "defines": true, "panics": true, "modifies": true, "invariant": true, "decreases": true, "expect": true, "vars": true, "pure": true, "ghostset": true, "reveals": true, "uses": true, "nomerge": true}
+var clauseKeywords = map[string]bool{"requires": true, "ensures": true, "xensures": true, "defines": true, "panics": true, "modifies": true, "invariant": true, "decreases": true, "expect": true, "vars": true, "pure": true, "ghostset": true, "reveals": true, "uses": true, "nomerge": true, "stable": true}
 
 func splitList(s string) []string {
 	var out []string
@@ -442,6 +443,17 @@ func (ct *ContractTable) parseLines(lines []rawLine, pkg string) error {
 				curL.Decreases = cl
 			default:
 				return errf("clause %s not allowed here", kw)
+			}
+		case "stable":
+			if curC == nil || curC.Kind != "functype" {
+				return errf("stable outside a functype contract")
+			}
+			for _, p := range splitTopLevel(rest) {
+				e, err := parseModTarget(p)
+				if err != nil {
+					return errf("%v", err)
+				}
+				curC.Stable = append(curC.Stable, ModTarget{p, e})
 			}
 		case "modifies":
 			var mods []ModTarget
